@@ -533,11 +533,16 @@ def c15_extra(tier, seed, ctx):
     # … nor must any other command that arrives while a search is running (options, new game, identification, junk)
     for script in (["go infinite", "go depth 1", "go depth 1", "isready"], ["go", "go", "go", "stop", "isready"], ["go infinite", "go nodes 5", "position startpos", "go movetime 10", "isready"],
                    ["go infinite", "setoption name Hash value 1", "isready"], ["go infinite", "setoption name Threads value 2", "setoption name Move Overhead value 10", "ucinewgame", "isready"],
-                   ["go infinite", "uci", "setoption name Nonsense value 3", "setoption", "position startpos moves e2e4", "isready"], ["go", "stop", "setoption name Hash value 1", "isready"]):
+                   ["go infinite", "uci", "setoption name Nonsense value 3", "setoption", "position startpos moves e2e4", "isready"], ["go", "stop", "setoption name Hash value 1", "isready"],
+                   ["BURST", "go infinite", "stop", "go depth 1", "isready"], ["BURST", "position startpos", "go infinite", "stop", "go infinite", "stop", "isready"],
+                   ["BURST", "go infinite", "isready", "stop", "ucinewgame", "go nodes 10", "isready"]):
         def refused(scale, script=script):
             v = []
             eng = Engine(E)
-            for l in script:
+            burst = script[0] == "BURST"      # all lines in one write: the commands are processed before the search thread has started
+            if burst:
+                eng.send_raw(("\n".join(script[1:]) + "\n").encode())
+            for l in ([] if burst else script):
                 eng.send(l)
                 time.sleep(0.05)
             if eng.wait_for(lambda l: l == "readyok", 3.0 * scale) is None:
